@@ -58,6 +58,7 @@ def build(tier, seed):
     tasks.append(Task(f"{PROP}.S.deplist", PROP, "Project.correlate deplist", lambda: __import__("contracts.deps", fromlist=["x"]).deplist_obligations(PROP, lambda: __import__("bounded.c06", fromlist=["x"]).search())))
     tasks.append(Task(f"{PROP}.S.find_used_modules", PROP, "find_used_modules", lambda: __import__("contracts.external", fromlist=["x"]).find_used_modules_recursion(PROP, lambda: __import__("bounded.c07", fromlist=["x"]).search())))
     tasks.append(Task(f"{PROP}.S.find_used_modules.lookup", PROP, "find_used_modules", lambda: __import__("contracts.external", fromlist=["x"]).find_used_modules_lookup(PROP, lambda: __import__("bounded.c06", fromlist=["x"]).search())))
+    tasks.append(Task(f"{PROP}.S.own_tables", PROP, "FortranCodeUnit.correlate", lambda: useassoc.own_tables_obligations(PROP, lambda: __import__("bounded.c07", fromlist=["x"]).search())))
     tasks.append(Task(f"{PROP}.S.filter_public", PROP, "FortranCodeUnit.correlate", lambda: useassoc.filter_public_obligation(PROP, lambda: __import__("bounded.c06", fromlist=["x"]).search())))
     tasks.append(Task(f"{PROP}.S.use_loop", PROP, "FortranCodeUnit.correlate", lambda: useassoc.use_loop_obligations(PROP, lambda: __import__("bounded.c06", fromlist=["x"]).search())))
     tasks.append(Task(f"{PROP}.S.casefold.tables", PROP, "stores into the name tables", lambda: __import__("contracts.casefold", fromlist=["x"]).table_store_obligations(PROP, replay=lambda: __import__("bounded.c06", fromlist=["x"]).search())))
